@@ -642,6 +642,16 @@ pub fn run(ctx: &Ctx) -> ! {
                     }
                 }
             }
+            // thorough: all unordered TRIPLES of mutations
+            if thorough {
+                for i in 0..m.len() {
+                    for j in i + 1..m.len() {
+                        for k in j + 1..m.len() {
+                            eval(&[&m[i], &m[j], &m[k]]);
+                        }
+                    }
+                }
+            }
             out.extend(out2);
             out
         })
@@ -685,7 +695,7 @@ pub fn run(ctx: &Ctx) -> ! {
     let mut rep = Report::new("exploration");
     rep.set("evaluations", evals.load(Ordering::Relaxed))
         .set("distinct_nontrivial", past_validate.load(Ordering::Relaxed))
-        .set("rule", "base cases: every (basis, source) over {0,1}^<=4 at block sizes 1,2 (1922) + 6 chunk-level cases at B=512; all single mutations of (basis, delta) from the menu (other basis, truncation, extension, bit flips, copy offset/len edits, op drop/dup/swap/reverse, literal edits, source_size/basis_size/block_size/checksum edits) and all unordered pairs (quick: pairs on a sub-set of small bases + all chunk bases); both engines; non-trivial = the mutated delta still passes Delta::validate, so patch really executes it")
+        .set("rule", "base cases: every (basis, source) over {0,1}^<=4 at block sizes 1,2 (1922) + 6 chunk-level cases at B=512; all single mutations of (basis, delta) from the menu (other basis, truncation, extension, bit flips, copy offset/len edits, op drop/dup/swap/reverse, literal edits, source_size/basis_size/block_size/checksum edits) and all unordered pairs (quick: pairs on a sub-set of small bases + all chunk bases; thorough: also all unordered triples); both engines; non-trivial = the mutated delta still passes Delta::validate, so patch really executes it")
         .set("patch_returned_ok", ok_count.load(Ordering::Relaxed))
         .set("child_runs_under_rlimit", huge_jobs.len() as u64 * 2)
         .set("cli_runs", cli_runs)
